@@ -53,7 +53,7 @@ func verifC02Honest() {
 	rec := s.outer.record()
 	rec[1], rec[2] = vByte(), vByte()
 	c, err := NewConn(context.Background(), newVTransport(rec), WithKeys([]Key{k.key()}))
-	vAssert(err == nil && c.ECHAccepted(), "the honest hello is accepted")
+	vAssert(err == nil && c.ECHAccepted() && c.ECHPresented(), "the honest hello is accepted")
 	vReach("accepted")
 }
 
